@@ -47,7 +47,7 @@ def main():
                 "text": text + " Seeded search over operation, schedule and fault sequences (one integer decides a run; 10^4-10^5 runs per quick check, 10^5-10^6 per thorough check): evidence, not proof.",
                 "design_ref": "DESIGN.md section 5 (%s), sections 4 and 7" % pid,
             },
-            "level_note": "Trusted: the step specification in sim/ops.py, sim/emlops.py and sim/profiles*.py (the executable reading of the property), the snapshot of the world through the library's public properties, CPython's pure-Python uuid1 under the simulated clock. Assumed: API-call granularity of interleaving (the library has no threads, timers or I/O); known findings listed in known_findings.json are reported, not re-raised.",
+            "level_note": "Trusted: the step specification in sim/ops.py, sim/emlops.py and sim/profiles*.py (the executable reading of the property), the snapshot of the world through the library's public properties, CPython's pure-Python uuid1 under the simulated clock. Assumed: API-call granularity of interleaving (the library has no threads, timers or I/O); known_findings.json holds no open entry at present (fixed: records only).",
             "technique": "deterministic simulation with fault injection: seeded multi-session histories against the real library, one-step refinement against a reference model with whole-world frame condition, ddmin-minimised replay files (profile '%s')" % profile,
         })
     doc = {
